@@ -183,12 +183,12 @@ func ruleBRACKETS(c *Ctx, r *Report) {
 		if got[k] == v {
 			r.ok(rule, key, "-", v)
 		} else {
-			r.bad(rule, key, c.pos(sym.Global.Pos()), fmt.Sprintf("the symbol %q must lex as %s; the table maps it to %q", rune(atoi(k)), v, got[k]))
+			r.bad(rule, key, sym.where(c), fmt.Sprintf("the symbol %q must lex as %s; the table maps it to %q", rune(atoi(k)), v, got[k]))
 		}
 	}
 	for k, v := range got {
 		if _, ok := want[k]; !ok {
-			r.bad(rule, "symbols|extra|"+k, c.pos(sym.Global.Pos()), fmt.Sprintf("unexpected symbol %q → %s in the lexer's symbol table", rune(atoi(k)), v))
+			r.bad(rule, "symbols|extra|"+k, sym.where(c), fmt.Sprintf("unexpected symbol %q → %s in the lexer's symbol table", rune(atoi(k)), v))
 		}
 	}
 	// terminal tokens: the exported predicate IsTerminal folded at every TokType constant (the table
